@@ -149,8 +149,11 @@ macro_rules! text_h {
                         }
                     }
                     Err(_) => {
+                        // completeness only for length prefixes of at most 9 bytes (the decoder's 63-bit length
+                        // reader); rejecting a longer padded prefix is not forbidden by the property
+                        let short_prefix = matches!(o, Some((s, _)) if s <= 9);
                         if q0.is_none() {
-                            std::assert!(!(w == 14 && o.is_some()), "well-formed text rejected without a quota");
+                            std::assert!(!(w == 14 && short_prefix), "well-formed text rejected without a quota");
                         }
                     }
                 }
